@@ -87,7 +87,7 @@ def _terminates(stmts):
     if not stmts:
         return False
     last = stmts[-1]
-    if isinstance(last, (ast.Return, ast.Raise)):
+    if isinstance(last, (ast.Return, ast.Raise, ast.Continue)):
         return True
     if isinstance(last, ast.If):
         return _terminates(last.body) and _terminates(last.orelse)
@@ -97,7 +97,7 @@ def _terminates(stmts):
 def _has_exit(stmts):
     for s in stmts:
         for n in ast.walk(s):
-            if isinstance(n, (ast.Return, ast.Raise)):
+            if isinstance(n, (ast.Return, ast.Raise, ast.Continue)):
                 return True
     return False
 
@@ -245,6 +245,8 @@ class Tr:
         self.done = done if done is not None else {}  # lean names translated earlier in this run
         self.elems = {}      # comprehension variable -> the collection it ranges over
         self.btypes = {p[1]: p[2] for p in target.params if p[2] != "-"}  # lean binder -> type
+        self.loop_ctx = None  # inside the body of a `for`: the call that stands for `continue`
+        self.aux = []        # auxiliary definitions (loops) emitted before the function
         self.ltypes = {}     # translated local -> "Nat" / "Int" (everything else is a `K`)
         self.nat_names = set()  # locals holding a count / length (a Lean `Nat`)
 
@@ -299,6 +301,10 @@ class Tr:
             raise Unsupported("unary op")
         if isinstance(n, ast.IfExp):
             return f"(if {self.cond(n.test, env)} then {self.expr(n.body, env)} else {self.expr(n.orelse, env)})"
+        if isinstance(n, ast.Tuple) and len(n.elts) >= 2 and all(isinstance(e.ctx if hasattr(e, "ctx") else ast.Load(), ast.Load) for e in n.elts):
+            return "(" + ", ".join(self.expr(e, env) for e in n.elts) + ")"
+        if self.is_list_lit(n):
+            return "[" + ", ".join(self.expr(e, env) for e in self.is_list_lit(n)) + "]"
         if isinstance(n, ast.Call):
             return self.call(n, env)
         if isinstance(n, (ast.Compare, ast.BoolOp)):
@@ -388,6 +394,15 @@ class Tr:
                         attrs={k: f"{var}.{v}" for k, v in coll.get("attrs", {}).items()}, params=[])
             return Tr(t2, src, None).expr(body[0].value, {})
         raise Unsupported(f"attribute {ast.unparse(n)}")
+
+    def is_list_lit(self, n):
+        """the elements of a list of numbers written out in the source: `[a, b, …]` or `np.array([a, b, …])`"""
+        if isinstance(n, ast.Call) and ast.unparse(n.func) in ("np.array", "numpy.array") and len(n.args) == 1 \
+                and not n.keywords:
+            n = n.args[0]
+        if isinstance(n, ast.List) and n.elts and not any(isinstance(e, ast.Starred) for e in n.elts):
+            return list(n.elts)
+        return None
 
     def input(self, n, env):
         """a sub-expression the target declares as an INPUT (by its source text): it must not mention a
@@ -791,7 +806,11 @@ class Tr:
             cur = self.expr(tg, env)
             val = f"({cur} {op} {val})"
         if isinstance(tg, ast.Name):
-            if isinstance(s, ast.Assign) and self.etype(s.value, env) in ("Nat", "Int"):
+            if isinstance(s, ast.Assign) and self.is_list_lit(s.value):
+                if tg.id in env or tg.id in self.pnames:
+                    raise Unsupported(f"{tg.id} changes type to a list")
+                self.ltypes[tg.id] = "List K"
+            elif isinstance(s, ast.Assign) and self.etype(s.value, env) in ("Nat", "Int"):
                 self.ltypes[tg.id] = self.etype(s.value, env)
             elif tg.id in self.ltypes:
                 raise Unsupported(f"reassignment of the integer local {tg.id}")
@@ -873,10 +892,18 @@ class Tr:
     def stmts(self, body, env, indent="  "):
         """translate a statement list that ends in return / raise on every path"""
         if not body:
+            if self.loop_ctx is not None:
+                return indent + self.loop_ctx  # the end of a loop body: next element
             if self.t.kind == "method" and self.t.unit:
                 return f"{indent}.ok {env.get('self', 'self')}"
             raise Unsupported("control reaches the end of the function without a return")
         s, rest = body[0], body[1:]
+        if isinstance(s, ast.Continue):
+            if self.loop_ctx is None:
+                raise Unsupported("continue outside a translated loop")
+            return indent + self.loop_ctx
+        if isinstance(s, ast.For):
+            return self.for_loop(s, rest, env, indent)
         if _is_docstring(s) or _is_warn_call(s) or isinstance(s, ast.Pass):
             return self.stmts(rest, env, indent)
         if isinstance(s, ast.Raise):
@@ -971,6 +998,67 @@ class Tr:
         e = self.expr(a.value, env)
         return x, f"(match {self.pnames[x]} with | none => {e} | some v' => v')"
 
+    def for_loop(self, s, rest, env, indent):
+        """`for x in xs: BODY` followed by REST, where the loop carries no state (BODY assigns nothing that
+        is read after the pass) and leaves only by `return` / `raise` / `continue` / its end: an auxiliary
+        definition by recursion on the list — `[]` ↦ REST, `x :: rest'` ↦ BODY with `continue` ↦ the call
+        on `rest'`"""
+        t = self.t
+        if self.loop_ctx is not None or self.aux:
+            raise Unsupported("more than one loop")
+        if t.kind not in ("except", "pure") or t.path is None:
+            raise Unsupported("loop in a function of this kind")
+        if s.orelse or not isinstance(s.target, ast.Name):
+            raise Unsupported("for … else / pattern target")
+        x = s.target.id
+        if x in env or x in self.pnames or f"def:{x}" in env:
+            raise Unsupported(f"loop variable {x} rebinds a name")
+        if not (isinstance(s.iter, ast.Name) and s.iter.id in env and self.ltypes.get(s.iter.id) == "List K"):
+            raise Unsupported(f"iteration over {ast.unparse(s.iter)} (not a local list literal)")
+        stores, loads_after = set(), set()
+        for st in s.body:
+            for m in ast.walk(st):
+                if isinstance(m, (ast.Break, ast.For, ast.While, ast.FunctionDef, ast.Lambda)):
+                    raise Unsupported(f"{type(m).__name__} inside the loop")
+                if isinstance(m, ast.Name) and not isinstance(m.ctx, ast.Load):
+                    stores.add(m.id)
+                if isinstance(m, ast.Attribute) and not isinstance(m.ctx, ast.Load):
+                    raise Unsupported("attribute assignment inside the loop")
+        for st in rest:
+            for m in ast.walk(st):
+                if isinstance(m, ast.Name) and isinstance(m.ctx, ast.Load):
+                    loads_after.add(m.id)
+        carried = {k for k in stores if k in env or k in self.pnames} | (stores & loads_after)
+        if carried or x in loads_after:
+            raise Unsupported(f"the loop carries state: {sorted(carried | ({x} & loads_after))}")
+        used = set()
+        for st in list(s.body) + list(rest):
+            for m in ast.walk(st):
+                if isinstance(m, ast.Name) and isinstance(m.ctx, ast.Load):
+                    used.add(m.id)
+        # the inner functions callable here read their closure variables from this environment
+        for k in list(env):
+            if k.startswith("def:") and k[4:] in used:
+                ct = PATHS.get((t.rel, t.path + (k[4:],)))
+                used |= {p[0][1:] for p in (ct.params if ct else []) if p[0].startswith("^")}
+        extra = [k for k in env if not k.startswith("def:") and k in used and k != s.iter.id]
+        name = f"{t.lean_name}_loop"
+        binders = self.binders() + [f"({env[k]} : {self.ltypes.get(k, 'K')})" for k in extra]
+        args = " ".join((["fuel"] if t.fuel else []) + (["self"] if t.self_type else [])
+                        + [p[1] for p in t.params if p[2] != "-"] + [env[k] for k in extra])
+        nil = self.stmts(list(rest), env, "    ")
+        env2 = dict(env)
+        env2[x] = x
+        self.loop_ctx = f"({name} {args} rest')".replace("  ", " ")
+        try:
+            cons = self.stmts(list(s.body), env2, "    ")
+        finally:
+            self.loop_ctx = None
+        self.aux.append(f"/-- the `for {x} in {s.iter.id}` loop of {'.'.join(t.path)} -/\n"
+                        f"def {name} {' '.join(binders)} : List K → {self.result_type()}\n"
+                        f"  | [] =>\n{nil}\n  | {x} :: rest' =>\n{cons}\n")
+        return indent + f"({name} {args} {env[s.iter.id]})".replace("  ", " ")
+
     def err(self, s):
         exc = s.exc
         name = exc.func.id if isinstance(exc, ast.Call) and isinstance(exc.func, ast.Name) else (exc.id if isinstance(exc, ast.Name) else None)
@@ -1064,7 +1152,7 @@ class Tr:
             return f"  match fuel with\n  | 0 => .error {t.rec_err}\n  | fuel + 1 =>\n{body}"
         return self.stmts(list(fn.body), {})
 
-    def header(self):
+    def binders(self):
         t = self.t
         bs = []
         if t.self_type:
@@ -1076,13 +1164,18 @@ class Tr:
             bs.append(t.extra_binders)
         if t.fuel:
             bs.insert(0, "(fuel : Nat)")
+        return bs
+
+    def result_type(self):
+        t = self.t
         if t.kind == "method":
-            rt = f"Except {t.err_type} ({t.self_type})" if t.unit else f"Except {t.err_type} ({t.self_type} × K)"
-        elif t.kind == "except":
-            rt = f"Except {t.err_type} ({t.ret})"
-        else:
-            rt = t.ret
-        return f"def {t.lean_name} {' '.join(bs)} : {rt} :="
+            return f"Except {t.err_type} ({t.self_type})" if t.unit else f"Except {t.err_type} ({t.self_type} × K)"
+        if t.kind == "except":
+            return f"Except {t.err_type} ({t.ret})"
+        return t.ret
+
+    def header(self):
+        return f"def {self.t.lean_name} {' '.join(self.binders())} : {self.result_type()} :="
 
 
 # --------------------------------------------------------------------------------------- targets
@@ -1512,6 +1605,11 @@ TARGETS = [
     Target("fit_get_init_cap", BATT, None, "_get_init_cap", path=FIT_PATH, params=FIT_OUTER + FIT_OWN,
            ret="K", kind="except", fuel=True, err_type="Sessions.Err",
            doc="batt_cap_fn._get_init_cap", group="Fit"),
+    Target("fit_batt_cap_fn", BATT, None, "batt_cap_fn", path=("batt_cap_fn",),
+           params=[("requested_energy", "requested_energy", "K"), ("stay_dur", "stay_dur", "K"),
+                   ("voltage", "voltage", "K"), ("period", "period", "K")],
+           ret="K × K", kind="except", fuel=True, err_type="Sessions.Err", errs={"ValueError": ".valueError"},
+           doc="batt_cap_fn: the ladder of candidate capacities", group="Fit"),
 ]
 
 TARGETS += [
@@ -1611,6 +1709,7 @@ def gen_code(group: str) -> str:
             cls = TR_CLASS.get(t.lean_name, cls)
             tr = cls(t, s, tree, done)
             body = tr.function()
+            out.extend(tr.aux)
             out.append(f"/-- {t.rel}: {t.doc} (translated) -/")
             out.append(tr.header())
             out.append(body)
